@@ -493,7 +493,9 @@ def gen_call(rng, argspec, wellformed, legacy_safe, is_env=False):
                 emitted = True
             else:
                 out += rng.choice(['', '}', '%c\n'])
-    out += rng.choice(['', ' tail', '{t}', '[u]', '*', '\n\nnext', '}'] if not wellformed else ['', ' tail', '.', '\n\nnext'])
+    # ... followed by nothing, text, further would-be arguments, or only blanks up to the end of the input
+    out += rng.choice(['', ' tail', '{t}', '[u]', '*', '\n\nnext', '}', ' ', '\n'] if not wellformed
+                      else ['', ' tail', '.', '\n\nnext', ' ', '\n', ' \t'])
     return out
 
 
